@@ -51,7 +51,21 @@ def mutate_field(rng, opt):
     return name + sep + ','.join(parts)
 
 
+def gen_taper(rng):
+    """tapered wire with random limits (exercises the search loops of taper.py)"""
+    n = rng.randint(2, 12)
+    l = 10 ** rng.uniform(-1, 2)
+    r = l / n / rng.choice([3, 5, 10, 50, 200])
+    mn = rng.choice([0, 0, l / n * rng.uniform(0.01, 1.2)])
+    t = '--taper-wire=1,%d,%r' % (rng.choice([1, 2, 3]), mn)
+    if rng.random() < 0.7:
+        t += ',%r' % (l / n * rng.uniform(0.8, 4))
+    return ['-f', '%r' % (299.8 / (l / n) / 25), '-w', '%d,0,0,0,0,0,%r,%r' % (n, l, r), '--excitation-pulse=1', t, '--theta=0,45,2', '--phi=0,90,1']
+
+
 def gen(rng):
+    if rng.random() < 0.12:
+        return gen_taper(rng)
     base = list(rng.choice(BASES))
     argv = []
     i = 0
